@@ -465,6 +465,11 @@ fn main() {
         // family of structured schedules; then seeded random plans.
         let il = interleavings(5, 5);
         let n_ex = il.len() * 2;
+        // thorough tier only: one publisher (5 steps) against one reconciler (8 steps: begin,
+        // read, lock, read+merge, add, remove, remove, unlock) over a directory that already
+        // holds two divergent heads: all 1287 interleavings x both lock modes
+        let il2 = if ctx.tier == "thorough" { interleavings(5, 8) } else { vec![] };
+        let n_ex2 = il2.len() * 2;
         let indices = ctx.indices();
         let plans: Vec<(usize, Plan)> = indices
             .iter()
@@ -478,6 +483,16 @@ fn main() {
                         procs: vec![(usize::MAX - 1, vec![Cmd::Commit]), (usize::MAX - 1, vec![Cmd::Commit])],
                         sched: il[i / 2].clone(),
                         kind: "exhaustive2",
+                    }
+                } else if i < n_ex + n_ex2 {
+                    let j = i - n_ex;
+                    Plan {
+                        lw: j % 2 == 0,
+                        pre: vec![usize::MAX, usize::MAX],
+                        pre_load: false,
+                        procs: vec![(usize::MAX - 1, vec![Cmd::Commit]), (usize::MAX - 1, vec![Cmd::Load])],
+                        sched: il2[j / 2].clone(),
+                        kind: "exhaustive-pub-vs-reconciler",
                     }
                 } else {
                     random_plan(&mut rng)
